@@ -855,6 +855,12 @@ def adjoint_programs(algopy):
         ("outer_same_node", lambda x: (lambda v: algopy.sum(algopy.outer(v, v) * numpy.array([[1., 2., 3., 4.], [5., 6., 7., 8.], [9., 10., 11., 12.], [13., 14., 15., 17.]])))(x * x)),
         ("solve_same_node", lambda x: (lambda M: algopy.sum(algopy.solve(M, M) * W22) + algopy.sum(M))(algopy.reshape(x, (2, 2)) + A0)),
         ("div_same_node", lambda x: (lambda v: algopy.sum(v / v + v * v - v + (v - v)))(x * x + 1.)),
+        # item assignment whose right-hand side NumPy broadcasts into the target (the value's adjoint is a sum over the broadcast axes)
+        ("setitem_bcast_scalar", lambda x: T_setbcast(algopy, x, 0)),
+        ("setitem_bcast_row", lambda x: T_setbcast(algopy, x, 1)),
+        ("setitem_bcast_col", lambda x: T_setbcast(algopy, x, 2)),
+        ("setitem_bcast_slice", lambda x: T_setbcast(algopy, x, 3)),
+        ("setitem_bcast_overwrite", lambda x: T_setbcast(algopy, x, 4)),
         ("pow_same_node", lambda x: (lambda v: algopy.sum(v ** v))(x * x + 0.5)),
     ]
 
@@ -964,6 +970,28 @@ def T_setslices(algopy, x):
     b[1, 0] = algopy.sin(b[0, 1])
     b[:, 0] = b[:, 0] * x[:2]
     return algopy.sum(b * b)
+
+
+def T_setbcast(algopy, x, k):
+    b = algopy.zeros((2, 3), dtype=x)
+    W = numpy.array([[1., 2., 3.], [5., 7., 11.]])
+    if k == 0:
+        b[...] = x[0] * x[1]                                    # a scalar into every cell
+        b[1, 1:] = x[2] * x[2]                                  # a scalar into a slice
+    elif k == 1:
+        b[...] = x[:3] * x[1:]                                  # a row into every row
+    elif k == 2:
+        b[...] = algopy.reshape(x[:2] * x[2:], (2, 1))          # a column into every column
+    elif k == 3:
+        b[:, 1:] = x[:1] * x[3:]                                # a length-one vector into a block
+        b[:, 0] = x[1] * x[2]
+    else:
+        b[...] = x[3] * x[3]
+        g = algopy.sin(b[0] * x[:3])                            # the broadcast contents are read by a nonlinear operation ...
+        b[0:1] = g * x[0]                                       # ... and overwritten through a (1,3) <- (3,) broadcast
+        b[:, 2] = b[1, 0] * x[1]
+        return algopy.sum(b * b * W) + algopy.sum(g)
+    return algopy.sum(b * b * W) + algopy.sum(b[0] * x[:3])
 
 
 def T_buffer(algopy, x):
